@@ -3,7 +3,7 @@ From Coq Require Import List ZArith.
 From LJT Require Import model.Suspend model.SuspendMarker model.SuspendHuff model.SuspendEnc
   proofs.SuspendProofs proofs.SuspendWriteProofs proofs.SuspendMarkerProofs proofs.SuspendTheorems
   proofs.SuspendHuffProofs proofs.SuspendScanTheorems proofs.SuspendEncProofs
-  model.SuspendBuf proofs.SuspendBufProofs gen.GenSuspend.
+  model.SuspendBuf proofs.SuspendBufProofs model.SuspendLatch proofs.SuspendLatchProofs gen.GenSuspend.
 Import ListNotations.
 
 (* (1) generic: for a resumable unit parser every partition of the byte string gives the
@@ -92,6 +92,31 @@ Theorem C09_bufimage_final_pass_partial :
   forall diffs ops, final_image output_pass_resets_lossless diffs ops = undiff diffs None.
 Proof. exact bufimage_final_pass. Qed.
 Print Assumptions C09_bufimage_final_pass_partial.
+
+(* (5') buffered-image mode, quantization tables (jdinput.c latch_quant_tables, get_dqt, jddctmgr start_pass):
+   the multiplier tables used by the final output pass are those of the run without any early output pass,
+   for every interleaving of output passes with DQT / SOS / data on the input side -- hence independent of
+   later redefinitions of a shared slot and of the output-pass schedule.  latch_by_copy is read from
+   jdinput.c by the translator (private copy, not the slot pointer). *)
+Theorem C09_bufimage_quant_tables_partial : forall ops s, lfresh s ->
+  final_tables latch_by_copy ops s = final_tables latch_by_copy (lstrip ops) s.
+Proof. exact latch_schedule_irrelevant. Qed.
+Print Assumptions C09_bufimage_quant_tables_partial.
+
+Theorem C09_latched_table_immutable : forall ops s i t,
+  (exists c, nth_error (comps s) i = Some c /\ cl c = Copy t) ->
+  exists c, nth_error (comps (lrun latch_by_copy ops s)) i = Some c /\ cl c = Copy t.
+Proof. exact latched_table_immutable. Qed.
+Print Assumptions C09_latched_table_immutable.
+
+Example C09_ex_latch_copy : final_tables true ex_ops (linit [0; 0; 0]) = [Some tA; Some tB; Some tB].
+Proof. exact ex_latch_copy. Qed.
+Example C09_ex_latch_fresh : lfresh (linit [0; 0; 0]).
+Proof. exact ex_latch_fresh. Qed.
+(* latching the slot pointer (seeded change C09-2) violates the clause *)
+Example C09_latch_by_reference_refuted :
+  final_tables false ex_ops (linit [0; 0; 0]) <> final_tables false (lstrip ex_ops) (linit [0; 0; 0]).
+Proof. exact latch_by_reference_refuted. Qed.
 
 (* the behaviour of the tree before the fix found by this check (start_pass_lossless re-armed at every
    output pass) violates the clause: kept as the model-level witness of the regression case in corpus/C09 *)
